@@ -4,6 +4,8 @@ extern int lfunc_0(void); extern void *addr_lfunc_0(void); extern void *l1_addr_
 extern int ldata_1[]; extern const void *addr_ldata_1(void); extern const void *l1_addr_ldata_1(void); extern int read_ldata_1(void); extern int l1_read_ldata_1(void); int *volatile dp_ldata_1 = ldata_1;
 extern int l2func_2(void); extern void *addr_l2func_2(void); extern void *l1_addr_l2func_2(void); int (*volatile fp_l2func_2)(void) = l2func_2;
 extern int lifunc_3(void); extern void *addr_lifunc_3(void); int (*volatile fp_lifunc_3)(void) = lifunc_3;
+extern int t_lalias_ts_4[]; extern void *addr_lalias_ts_4(void); extern void *waddr_lalias_ts_4(void); extern int read_lalias_ts_4(void); extern void write_lalias_ts_4(int);
+extern int lalias_sw_5; extern void *addr_lalias_sw_5(void); extern void *waddr_lalias_sw_5(void); extern int read_lalias_sw_5(void); extern void write_lalias_sw_5(int);
 int main(void){
     if ((void*)lfunc_0 != addr_lfunc_0()) fail("lfunc_0: exe vs defining library");
     if ((void*)lfunc_0 != l1_addr_lfunc_0()) fail("lfunc_0: exe vs lib1");
@@ -21,4 +23,12 @@ int main(void){
     if ((void*)lifunc_3 != addr_lifunc_3()) fail("lifunc_3: library ifunc address exe vs library");
     if ((void*)fp_lifunc_3 != (void*)lifunc_3) fail("lifunc_3: library ifunc address data vs code in exe");
     if (lifunc_3() != 31 || fp_lifunc_3() != 31) fail("lifunc_3: ifunc call result");
+    if ((void*)t_lalias_ts_4 != addr_lalias_ts_4() || (void*)t_lalias_ts_4 != waddr_lalias_ts_4()) fail("lalias_ts_4: symbol in exe vs its alias used by the library");
+    if (t_lalias_ts_4[0] != 0 || read_lalias_ts_4() != 0) fail("lalias_ts_4: initial value");
+    t_lalias_ts_4[0] = 1176; if (read_lalias_ts_4() != 1176) fail("lalias_ts_4: write in exe not seen by the library through the alias");
+    write_lalias_ts_4(183); if (t_lalias_ts_4[0] != 183) fail("lalias_ts_4: write by the library through the alias not seen in exe");
+    if ((void*)&lalias_sw_5 != addr_lalias_sw_5() || (void*)&lalias_sw_5 != waddr_lalias_sw_5()) fail("lalias_sw_5: symbol in exe vs its alias used by the library");
+    if (lalias_sw_5 != 142 || read_lalias_sw_5() != 142) fail("lalias_sw_5: initial value");
+    lalias_sw_5 = 1142; if (read_lalias_sw_5() != 1142) fail("lalias_sw_5: write in exe not seen by the library through the alias");
+    write_lalias_sw_5(149); if (lalias_sw_5 != 149) fail("lalias_sw_5: write by the library through the alias not seen in exe");
     if (!bad) printf("OK\n"); return bad ? 1 : 0; }
